@@ -98,6 +98,9 @@ type Sim struct {
 	RestartAfterCommit    bool             // scenario: restart the primary after the next commit
 	PreBeginCheck         []func() []byte  // scenario: transactions to CheckTx before the next BeginBlock
 	scn15Tried            bool
+	scnH                  int64
+	scnBurns              int
+	scnHash               []byte
 	scnA, scnB            *appdrv.Key
 	QuietAll              bool // scenario: every proposal gets a quiet window around its applying height
 	VoteAll               bool // scenario: every validator votes on the latest proposal when its window opens
@@ -128,7 +131,7 @@ type Options struct {
 }
 
 // NumScenarios is the number of scenario templates (scenarios.go).
-const NumScenarios = 16
+const NumScenarios = 20
 
 func (s *Sim) add(r *Rec) *Rec { s.Recs = append(s.Recs, r); return r }
 
